@@ -41,6 +41,13 @@ def histories(tier, rnd):
     hs.append({"id": n, "steps": [{"c": 0, "entry": "stmt", "code": "{ RdV = 4 / 2; }"}, {"c": 0, "entry": "stmt", "code": "{ RsV = 1; }"},
                                   {"c": 0, "entry": "insn", "code": "{ i++; RdV = unknown_fn(RsV); }"}, {"c": 0, "entry": "insn", "code": "{ RdV = RsV + 1; }"},
                                   {"c": 0, "entry": "stmt", "code": "{ RdV = clz32(RsV); }"}, {"c": 1, "entry": "stmt", "code": "{ RdV = clz32(RsV); }"}]})
+    # counter sweep: the same two-hybrid behaviours after 0..12 (thorough: also 97..101) earlier hybrids, so that the temporaries' numbers
+    # cross every digit-length boundary (h_tmp9 / h_tmp10, h_tmp99 / h_tmp100)
+    probes = ["{ int32_t i = RsV; RdV = (i++) * 10 + (i--); }", "{ RdV = clz32(RsV) + clo32(RtV); }", "{ int32_t a = RsV; RdV = fbrev(a++) + a--; ReV = a; }"]
+    ks = list(range(0, 13)) + ([97, 98, 99, 100, 101] if tier != "quick" else [])
+    for j, k_ in enumerate(ks):
+        hs.append({"id": n + 10 + j, "steps": [{"c": 0, "entry": "stmt", "code": "{ RxV++; }"} for _ in range(k_)]
+                   + [{"c": 0, "entry": rnd.choice(["stmt", "insn"]), "code": p_} for p_ in probes]})
     # D33 witness: a user identifier spelled like the temporary the counter is about to hand out
     hs.append({"id": n + 1, "steps": [{"c": 0, "entry": "stmt", "code": "{ RxV++; }"} for _ in range(7)]
                + [{"c": 0, "entry": "stmt", "code": "{ int32_t h_tmp7 = 5; RdV = RxV++; ReV = h_tmp7; }"}]})
